@@ -309,6 +309,13 @@ theorem call_q (st st' : NState) (rnd : Option Nat) (op : NodeOp) (res : OpRes)
   | setMaxCommittedSizePerReady x =>
     simp only [applyOp] at h
     cases h; exact QL.of_same (fun _ hx => hx) rfl
+  | onEntriesFetched to term aggr =>
+    rcases CV.onEntriesFetched_ok h with h | ⟨-, -, -, raft, hx, h⟩
+    · cases h; exact QL.of_same (fun _ hx => hx) rfl
+    · cases h
+      rcases hx with hx | hx
+      · exact QL.of_k0 (sendAppendAggressively_k hx K.rfl hinv' hnb')
+      · exact QL.of_k0 (sendAppend_k hx K.rfl hinv' hnb')
 
 end CC
 end Raft
